@@ -1282,6 +1282,19 @@ impl Actor {
                     LoadDealState::Loaded(deal_state) => deal_state,
                 };
 
+                // An activated deal that has not started yet has nothing to settle. Leave it
+                // untouched: its proposal must stay pending until the deal is first processed at
+                // or after its start epoch, otherwise the same signed proposal could be published
+                // again.
+                if curr_epoch < deal_proposal.start_epoch {
+                    settlements.push(DealSettlementSummary {
+                        completed: false,
+                        payment: TokenAmount::zero(),
+                    });
+                    batch_gen.add_success();
+                    continue;
+                }
+
                 // TODO: remove this defensive check when it becomes impossible for process_deal_update to encounter slashed deals
                 // https://github.com/filecoin-project/builtin-actors/issues/1388
                 if deal_state.slash_epoch != EPOCH_UNDEFINED {
